@@ -1078,10 +1078,18 @@ def wiring_expectations():
 
     from ..core import SRC
 
+    import shutil
+
+    from tools.py2v.normalize import normalized_src
+
     sites, timeouts, inits, flags, ops = [], [], [], {}, []
-    gen_wiring.scan_module(SRC / "aioftp" / "server.py", sites, timeouts, inits, flags)
-    gen_wiring.scan_module(SRC / "aioftp" / "client.py", sites, timeouts, inits, flags)
-    gen_wiring.scan_common(SRC / "aioftp" / "common.py", timeouts, flags, ops)
+    nsrc = normalized_src(SRC / "aioftp")  # the same pre-pass `python -m tools.py2v` applies
+    try:
+        gen_wiring.scan_module(nsrc / "server.py", sites, timeouts, inits, flags)
+        gen_wiring.scan_module(nsrc / "client.py", sites, timeouts, inits, flags)
+        gen_wiring.scan_common(nsrc / "common.py", timeouts, flags, ops)
+    finally:
+        shutil.rmtree(nsrc.parent, ignore_errors=True)
     exp = {}
     for name, (tag, expr), ents in sites:
         exp[name] = {"dict": tag, "expr": expr, "entries": {k: t for k, (t, _) in ents}}
